@@ -4,6 +4,7 @@ from .sm_common import *
 
 SELECT = SELECT_SM
 UNITS = UNITS_SM
+ALSO = [('C32', ('errors-reset',))]   # clauses of this property that another module's rules decide: run here as well
 META = {
     'level': 'guarded-by / who-writes / who-calls rules on the three connection-data classes and the bonding layer: a key is returned with first == true only under '
              'state() == pairing_completed, ediv == 0 and rand == 0, it is the field written by *_pairing_completed, those completion functions are called only from the '
